@@ -37,6 +37,8 @@ Tail09(k) == CASE k = 0 -> <<CDirect(<<SRun(-1)>>)>>
                [] k = 1 -> <<CDirect(<<SRead(<<A>>), PV(A)>>)>>
                [] k = 2 -> <<CLine(15, <<SData(<<DV(7)>>)>>)>>
                [] k = 3 -> <<CDirect(<<SRun(-1)>>)>>
+               [] k = 4 -> <<CDirect(<<SData(<<DV(99)>>)>>)>>            \* DATA in a direct line is refused
+               [] k = 5 -> <<CDirect(<<SRead(<<B>>), SRead(<<B>>), SRead(<<B>>), SRead(<<B>>), SRead(<<B>>), SRead(<<B>>), PV(B)>>)>>
                [] OTHER -> <<>>
 
 (*************************** C10: user functions ***************************)
